@@ -6,7 +6,7 @@ import os
 V = os.path.dirname(os.path.dirname(os.path.abspath(__file__)))
 
 CLAIMS = {
-    "C01": ("static necessary conditions of the sorted/threaded AVL containers: equal-range contract between MultiMap::find and its forward-scanning consumers, sentinel-guarded walks, rebalance loop on every structural path of insert/remove, list threading, hinted-insert cell choice evaluated over all key orderings, cell-based descent started below the root only with an established key range, double-rotation decision table of shiftl/shiftr over child slope -1/0/+1, direction table of the descent, mirror symmetry of the rotations; the agreement with a reference map over all histories and the numeric height bound are NOT decided",
+    "C01": ("static necessary conditions of the sorted/threaded AVL containers: equal-range contract between MultiMap::find and its forward-scanning consumers, sentinel-guarded walks, rebalance loop on every structural path of insert/remove, list threading, hinted-insert cell choice evaluated over all key orderings, cell-based descent started below the root only with an established key range, double-rotation decision table of shiftl/shiftr over child slope -1/0/+1, direction table of the descent, mirror symmetry of the rotations; updateHeightAndSlope and the rebal dispatch evaluated over all child-height / slope / parent-link configurations; the agreement with a reference map over all histories and the numeric height bound are NOT decided",
             "MPT/DOM path rules + finite ordering enumeration over clang AST/CFG", "3 C01"),
     "C02": ("static necessary conditions for HashMap/HashSet/PoolMap: members instantiate for T != V (compile witness), find-then-link dominance, bucket-chain back-pointer pairing, order-list link/unlink on all paths, clear resets bucket heads, swap hands over completely, bucket index reduced by the sizing capacity; operator== walks both insertion-order lists in step comparing key and value under equal sizes; agreement with a reference ordered map over all histories is NOT decided",
             "compile witness + MPT/DOM/PAIRF rules over clang AST/CFG", "3 C02"),
@@ -18,9 +18,9 @@ CLAIMS = {
             "WHO/DOM effect rules + compile witnesses", "3 C05"),
     "C06": ("detach-before-write discipline on every String member: writes to the text block dominated by detach()/exclusive-owner test/fresh allocation, in-place detach only for count one and sufficient capacity (finite valuations), length stores paired with NUL stores, allocation shape sizeof(Data)+(c+1) with capacity c, sharing only of counted blocks, C-string view terminator check, ALIAS rule for self-referential arguments (2 known findings), join appends token (separator token)* on every path, detach(copyLength, minCapacity) called only with copyLength <= minCapacity; raw text pointers reach NUL-dependent readers only after detach(); byte equality with a reference string and search/format results are NOT decided",
             "DOM/PAIRF/FIN/ALIAS rules over clang AST/CFG", "3 C06"),
-    "C07": ("tag<->payload table read from the constructors, every payload cast dominated by the matching tag (valuation over all tags), clear() exhaustive, mutable access to the current payload only for ref<=1 and matching tag (valuations), clones built in the fresh block, no pointer comparison of class operands, reference-count idioms, self-assignment order, no read of the own payload between release and re-seat; coercion tables and equality over all values are NOT decided",
+    "C07": ("tag<->payload table read from the constructors, every payload cast dominated by the matching tag (valuation over all tags), clear() exhaustive, mutable access to the current payload only for ref<=1 and matching tag (valuations), clones built in the fresh block, no pointer comparison of class operands, reference-count idioms, self-assignment order, no read of the own payload between release and re-seat; assignment operators take everything from their argument before releasing the own payload; coercion tables and equality over all values are NOT decided",
             "TAG/FIN/DOM rules over clang AST/CFG", "3 C07"),
-    "C09": ("the reference-counting safety argument reduced to code-shape facts on String, Variant, Xml::Variant, RefCount::Ptr: atomic-only counter updates, release only under `Atomic::decrement(..) == 0` evaluated in the condition, increment on every share, release before overwrite, acquire before release, paired handle fields, rule of three, clone target, exclusive-owner valuations, no in-place String text write without detach()/sole-owner test/fresh block; these imply exactly-once release under every interleaving of threads owning distinct handles, given full-barrier __sync builtins; weak-memory effects and misuse of one handle by two threads are NOT decided",
+    "C09": ("the reference-counting safety argument reduced to code-shape facts on String, Variant, Xml::Variant, RefCount::Ptr: atomic-only counter updates, release only under `Atomic::decrement(..) == 0` evaluated in the condition, increment on every share, release before overwrite, acquire before release, paired handle fields, rule of three, clone target, exclusive-owner valuations, no in-place String text write without detach()/sole-owner test/fresh block; these imply exactly-once release under every interleaving of threads owning distinct handles, given full-barrier __sync builtins; no read of an assignment's argument after the release of the own payload (the argument may live inside it); weak-memory effects and misuse of one handle by two threads are NOT decided",
             "WHO/DOM/MPT/ORD/PAIRF/FIN rules over clang AST/CFG", "3 C09"),
     "C10": ("protocol-shape rules on Future.hpp/Future.cpp: publication order (call once -> result -> state -> signal -> delete; join before reading; startProc prepares the future before handing the job over), reset-and-recheck before every queue wait, wake-up after every hand-off, atomic-only ring indices with fill-before-publish and ticket-before-CAS, one dispatch per pop counted only for real jobs, thread count paired with worker creation / retire tickets, spin-lock release and re-read in the lazy pool creation, worker list under the mutex; the result conversion has no way around join() unless the state is reset per run; liveness (every join eventually returns), lock-freedom and exactly-once under all interleavings of the ring are NOT decided",
             "ORD/MPT/DOM/WHO path rules over clang AST/CFG", "3 C10"),
@@ -34,7 +34,7 @@ CLAIMS = {
             "lock-state dataflow + DOM/MPT rules + unit typing + interval analysis over clang AST/CFG", "3 C11"),
     "C15": ("parser-cursor abstract interpretation (bytes known non-NUL at the cursor, join = min) over readToken/skipSpace/stripComments: no advance or offset read beyond what dominating tests establish, every tokenizer loop cycle advances; table agreement between the string reader's special bytes and the writer's escapes with round-trip of each escape; serialiser/parser exhaustiveness over tags and token kinds; agreement of the bytes counted as line breaks with the bytes that stop the error-column walk, stripComments output bound, string-mode typestate and agreement of its literal loop with the JSON literal automaton on all 341 texts of up to 4 bytes over 4 byte classes; every byte the escape writer stops at has an emitting arm; equality of re-parsed trees in general and recursion depth are NOT decided",
             "CUR abstract interpretation + TBL/TAG table rules over clang AST/CFG", "3 C15"),
-    "C16": ("parser-cursor abstract interpretation over the XML tokenizer (bounds and per-loop progress), a save/rewind-aware progress argument for the content loop of parseElement with callee summaries, escape-table agreement between reader stop sets and writer escapes (tables read from the initialisers), stale-pointer rule for raw String buffers across reallocating calls, copy-on-write rules for element values (shared with C09), line/lineStart pairing (1 known finding), prolog test evaluated only after skipSpace(), parser state reset at the entry of parse(), no look-behind past a scan origin; Xml::Variant assignment acquires before it releases; structural equality of re-parsed element trees in general is NOT decided",
+    "C16": ("parser-cursor abstract interpretation over the XML tokenizer (bounds and per-loop progress), a save/rewind-aware progress argument for the content loop of parseElement with callee summaries, escape-table agreement between reader stop sets and writer escapes (tables read from the initialisers), stale-pointer rule for raw String buffers across reallocating calls, copy-on-write rules for element values (shared with C09), line/lineStart pairing (1 known finding), prolog test evaluated only after skipSpace(), parser state reset at the entry of parse(), no look-behind past a scan origin; Xml::Variant assignment acquires before it releases; no read of an assignment's argument after the release of the own payload; structural equality of re-parsed element trees in general is NOT decided",
             "CUR abstract interpretation + TBL/ALIAS/PAIRF rules over clang AST/CFG", "3 C16"),
     "C18": ("the bounds-safety clauses: value-set analysis (byte domain exact, signed char, casts, masks, dominating guards, return-set summaries) of every non-constant index into a constant-size table; (pointer,length) reads covered by the length guards with lock-step advance and bounded fall-through consumption in the UTF-8 decoder/validator; encoder range tests agree with the decoder's length table on representatives of every range; base64 output index bounded by the input index; each String::to<Integer> uses a C parser whose result type covers the return type, unguarded snprintf lengths have room for the longest output; the first byte of a (pointer,length) range is read only when the range is non-empty; that encoder and decoder are inverse on all code points, integer round trips and the hex/base64 values are NOT decided",
             "VSA (value sets/intervals) + PAIRF/CNT/FIN rules over clang AST/CFG", "3 C18"),
